@@ -185,6 +185,9 @@ def _one(args):
     markets = [(simx.MarketSpec(market_id="1.100000001", market_type=mtype, sels=SELS, book0=BOOK0, ew=ew, nwin=nwin), ticks)]
     strategies = []
     skw = dict(max_order_exposure=None, max_selection_exposure=None, max_live_trade_count=5)
+    own_mw = two == "own-mw"
+    if own_mw:
+        two = None
     if two:
         # the same market shape again under another id (same selection ids, same removal): sequentially
         # (two == "seq") or event-grouped ("event")
@@ -202,7 +205,9 @@ def _one(args):
         strategies.append(dict(script=scripts[k], kw=dict(skw), name="S%d" % k))
     h = Hooks([1])
     L._install_created_tracking()
-    w = simx.SimWorld(markets, strategies, hooks=h, event_processing=bool(two and two.startswith("event"))).run()
+    w = simx.SimWorld(markets, strategies, hooks=h, event_processing=bool(two and two.startswith("event")))
+    w.own_sim_middleware = own_mw
+    w.run()
     out = []
     counts = {"clause:C09.a": 0, "clause:C09.b": 0, "clause:C09.c": 0, "voided_orders": 0, "voided_with_matched": 0, "reduced_fragments": 0, "scaled_liabilities": 0, "second_market_removals": 0, "second_removals": 0, "inflight_at_removal": 0}
     case = dict(args=list(args))
@@ -335,7 +340,7 @@ def run(tier):
                 for mt in ("WIN", "PLACE"):
                     jobs.append((a, b, f, "plain", mt, 10.0, None))
                     jobs.append((a, b, f, "plain", mt, f, None))
-                    for two in ("seq", "event", "event-long"):
+                    for two in ("seq", "event", "event-long", "own-mw"):
                         jobs.append((a, b, f, "plain", mt, None, two))
     for b in ("matched-lay", "matched-back", "moc-lay", "low-price", "moc-lay+matched"):
         for f in (2.5, 20.0, None):
